@@ -3,7 +3,7 @@
     table covers the tree at every depth -- for every [is_uppercase]. *)
 From ClapModel Require Import Base.Bytes Complete.AotTree Complete.TextTree Complete.BashModel Complete.AotProofs
   Complete.BashProofs Escape.EscapeModel Escape.ShellLex Escape.EscapeProofs Complete.PathTable Complete.PathTableLex
-  Complete.PowershellModel.
+  Complete.PathTableBlocks Complete.BuildTexts Complete.PowershellModel.
 From Coq Require Import String.
 Open Scope N_scope.
 Open Scope list_scope.
@@ -454,3 +454,50 @@ Proof.
   eexists. eexists. split; [vm_compute; reflexivity|]. split; [vm_compute; reflexivity|].
   vm_compute. discriminate.
 Qed.
+
+(** ---- [clap_complete::aot::generate] as a whole; the lookup ---- *)
+Section UpMore.
+Variable up : N -> bool.
+
+(** total: whenever [Command::build] succeeds the generator writes a script *)
+Theorem powershell_generate_total c bin b t :
+  build (set_bin_name c bin) = Some b -> exists s, generate_powershell up c t bin = Some s.
+Proof.
+  intros Hb. unfold generate_powershell. rewrite Hb. destruct (tbuild_total _ b t Hb) as [tb ->].
+  apply (generate_total up _ b tb Hb). rewrite (build_root_bin c bin b Hb). discriminate.
+Qed.
+
+(** C17 with the class on the SOURCE tree: [build] keeps a tree in the class *)
+Theorem powershell_generate_structure_src c bin t1 t2 s1 s2 :
+  cmd_plain ps_plain c = true -> ps_plainl bin = true ->
+  generate_powershell up c t1 bin = Some s1 -> generate_powershell up c t2 bin = Some s2 ->
+  skeleton (events ps_step PB s1) = skeleton (events ps_step PB s2) /\
+  final ps_step PB s1 = final ps_step PB s2.
+Proof.
+  intros Hc Hbin G1 G2.
+  destruct (build (set_bin_name c bin)) as [b|] eqn:Hb;
+    [|unfold generate_powershell in G1; rewrite Hb in G1; discriminate].
+  apply (powershell_generate_structure up c bin t1 t2 b s1 s2 Hb); [|exact G1|exact G2].
+  apply (cp_build ps_plain eq_refl eq_refl eq_refl eq_refl _ b Hb). apply cp_set_bin_name; assumption.
+Qed.
+
+(** the block of a path is what [switch ($command)] finds *)
+Theorem powershell_lookup c t bin ws ns n :
+  c_bin c = Some bin -> bin <> [] -> bins_built c -> siblings_ok c -> cmd_plain no_semi c = true ->
+  reach c ws ns n ->
+  exists tn,
+    generate up c t = Some (render bin (List.concat (map (render_block (ps_fmt up)) (blocks (ps_fmt up) c t [])))) /\
+    In (path_key bin ws, entries (ps_fmt up) n tn) (blocks (ps_fmt up) c t []) /\
+    (forall e, In (path_key bin ws, e) (blocks (ps_fmt up) c t []) -> e = entries (ps_fmt up) n tn) /\
+    lookup_block (blocks (ps_fmt up) c t []) (path_key bin ws) = Some (path_key bin ws, entries (ps_fmt up) n tn).
+Proof.
+  intros Hbin Hne Hb Hs Hp Hr.
+  destruct (table_lookup (ps_fmt up) c t bin ws ns n Hbin Hne Hs Hp Hr) as (tn & Hin & Hu).
+  exists tn. split; [rewrite <- gi_blocks; apply generate_spec; assumption|].
+  split; [exact Hin|]. split; [exact Hu|]. exact (lookup_first _ _ _ Hin Hu).
+Qed.
+End UpMore.
+
+(** the hypotheses of [powershell_generate_structure_src] hold for the example tree *)
+Example powershell_src_hyps : cmd_plain ps_plain ex_tree = true /\ ps_plainl [112] = true.
+Proof. split; vm_compute; reflexivity. Qed.
